@@ -29,6 +29,21 @@ let legal_digest (v : Move.position) : string =
     if Hashtbl.length legal_cache > 200000 then Hashtbl.reset legal_cache;
     Hashtbl.add legal_cache key d; d
 
+(* the pure observation of a value and its L1 text; values are immutable, so both are cached by the value's encoding
+   (a cache of pure functions: it cannot change any result) *)
+let pure_cache : (string, (Alloc.observation * string)) Hashtbl.t = Hashtbl.create 1024
+let pure_obs (v : Move.position) : Alloc.observation * string =
+  let key = enc v in
+  match Hashtbl.find_opt pure_cache key with
+  | Some r -> r
+  | None ->
+    let pure = Alloc.observe_pure v in
+    let (((_, wg), bg), (over, win)) = pure in
+    let t1 = Printf.sprintf "%s/%d%s/%s/%s/%s" (enc_abs v) (if over then 1 else 0) (color_str win) (groups_str wg) (groups_str bg)
+               (string_of_n (AllocInst.a_hash v)) in
+    if Hashtbl.length pure_cache > 200000 then Hashtbl.reset pure_cache;
+    Hashtbl.add pure_cache key (pure, t1); (pure, t1)
+
 let run args =
   let stepf = (match args with "pinned" :: _ -> AllocInst.a_step_pinned | _ -> AllocInst.a_step) in
   run_cases (fun fs ->
@@ -40,6 +55,7 @@ let run args =
     let unheld : (int, unit) Hashtbl.t = Hashtbl.create 8 in
     let last1 : (int, string) Hashtbl.t = Hashtbl.create 16 and last2 : (int, string) Hashtbl.t = Hashtbl.create 16 in
     let fresh : (int, int) Hashtbl.t = Hashtbl.create 8 in
+    let lastv : (int, (Move.position * (Alloc.observation * string * string))) Hashtbl.t = Hashtbl.create 16 in
     let spec = ref None in
     let note s = if !spec = None then spec := Some s in
     let l1 = ref [] and l2 = ref [] in
@@ -71,7 +87,6 @@ let run args =
                | Some i -> "f" ^ string_of_int i
                | None -> let i = Hashtbl.length fresh in Hashtbl.add fresh a i; "f" ^ string_of_int i)) in
           if len = 0 then name ^ ".e" else Printf.sprintf "%s.%d.%d" name off len end in
-      ignore arrs;
       let s1 = ref [ (match res with Some id -> "r=+" ^ string_of_int (int_of_nat id) | None -> "r=-") ] and s2 = ref [] in
       Array.iteri (fun k o ->
         if not (Hashtbl.mem unheld k) then begin
@@ -79,15 +94,17 @@ let run args =
           match Alloc.pval !ps (nat_of_int k) with
           | None -> ()
           | Some v ->
-            let pure = Alloc.observe_pure v in
-            (match Alloc.observe !st (nat_of_int k) with
-             | Some so when so = pure -> ()
-             | _ -> note (Printf.sprintf "after step %d the store model's view of handle %d differs from the pure value" stepno k));
-            let (((_, wg), bg), (over, win)) = pure in
-            let t1 = Printf.sprintf "%s/%d%s/%s/%s/%s" (enc_abs v) (if over then 1 else 0) (color_str win) (groups_str wg) (groups_str bg)
-                       (string_of_n (AllocInst.a_hash v)) in
+            (* same OCaml value as at the previous step (values are shared, never copied): reuse its texts *)
+            let (pure, t1, t2raw) = (match Hashtbl.find_opt lastv k with
+              | Some (v', r) when v' == v -> r
+              | _ -> let (pure, t1) = pure_obs v in let r = (pure, t1, enc v) in Hashtbl.replace lastv k (v, r); r) in
+            (* the store model's view: Alloc.observe st k = Some (o_pos, read wg, read bg, game_over_groups o_pos wg bg); its
+               last component is a function of the first three, so comparing those with the pure ones decides equality *)
+            let (((_, wg), bg), _) = pure in
+            if not (o.Alloc.o_pos == v || o.Alloc.o_pos = v) || Alloc.read_ref arrs o.Alloc.o_wg <> wg || Alloc.read_ref arrs o.Alloc.o_bg <> bg
+            then note (Printf.sprintf "after step %d the store model's view of handle %d differs from the pure value" stepno k);
             let t1 = if with_legal then t1 ^ "/" ^ legal_digest v else t1 in
-            let t2 = enc o.Alloc.o_pos in
+            let t2 = if o.Alloc.o_pos == v then t2raw else enc o.Alloc.o_pos in
             let (t1, t2) = if full then (t1, t2) else (md5_16 t1, md5_16 t2) in
             (if Hashtbl.find_opt last1 k = Some t1 then s1 := Printf.sprintf "%d==" k :: !s1
              else begin s1 := Printf.sprintf "%d=%s" k t1 :: !s1; Hashtbl.replace last1 k t1 end);
